@@ -100,9 +100,11 @@ class Conf:
                             self.coredata.optstore.update_project_options(oi.options, sub)
                             self.coredata.options_files[sub] = (opfile, ophash)
                 else:
-                    opfile = os.path.join(self.source_dir, 'meson.options')
+                    # the option file of this (sub)project, not the top-level one
+                    projdir = os.path.join(self.source_dir, self.build.get_subproject_dir(), sub) if sub else self.source_dir
+                    opfile = os.path.join(projdir, 'meson.options')
                     if not os.path.exists(opfile):
-                        opfile = os.path.join(self.source_dir, 'meson_options.txt')
+                        opfile = os.path.join(projdir, 'meson_options.txt')
                     if os.path.exists(opfile):
                         oi = OptionInterpreter(self.coredata.optstore, sub)
                         oi.process(opfile)
